@@ -169,7 +169,8 @@ func leafVariants() []leafDoc {
 // attrSweepDocs: every component in its legal context with every one of its attributes set to a typed non-default value — one
 // attribute at a time and every pair of attributes (markup paths are chosen by attribute combinations: href with usemap,
 // background-url with full-width, height with mode, …); link and image attributes also with a blank value, background
-// sizes / positions also with one value, two values, keywords
+// sizes / positions also with one value, two values, keywords; every single attribute also supplied by the head (tag default,
+// mj-all, an mj-class) instead of the element
 func attrSweepDocs() []leafDoc {
 	var out []leafDoc
 	for _, tag := range bodyTags {
@@ -216,6 +217,20 @@ func attrSweepDocs() []leafDoc {
 		for i, x := range avs {
 			if src := legalContext(tag, x.a+`="`+xmlAttrEsc(x.v)+`"`, ""); src != "" {
 				out = append(out, leafDoc{desc: "attr/" + tag + "/" + x.a, src: src})
+			}
+			// the same value supplied by the head instead of the element: the tag's default, mj-all, an mj-class (markup paths
+			// chosen by an attribute must be chosen alike wherever the attribute comes from)
+			if x.a != "css-class" && x.a != "name" {
+				av := x.a + `="` + xmlAttrEsc(x.v) + `"`
+				for _, via := range [][3]string{
+					{"tag-default", `<mj-head><mj-attributes><` + tag + ` ` + av + `/></mj-attributes></mj-head>`, ``},
+					{"mj-all", `<mj-head><mj-attributes><mj-all ` + av + `/></mj-attributes></mj-head>`, ``},
+					{"mj-class", `<mj-head><mj-attributes><mj-class name="sw" ` + av + `/></mj-attributes></mj-head>`, `mj-class="sw"`},
+				} {
+					if src := legalContext(tag, via[2], via[1]); src != "" {
+						out = append(out, leafDoc{desc: "attr-via-" + via[0] + "/" + tag + "/" + x.a, src: src})
+					}
+				}
 			}
 			for _, y := range avs[i+1:] {
 				if y.a == x.a {
